@@ -1,7 +1,7 @@
 (* Lemmas for C01: the normalisations cl performs on plain Go preserve the behaviour of MiniGo
    programs; emission in load order is the identity when no function refers to a variable declared
    later, and changes the initialisation order otherwise. *)
-From Coq Require Import List NArith ZArith Bool Lia.
+From Coq Require Import List NArith ZArith Bool Lia Permutation.
 Import ListNotations.
 From V Require Import Base.Prelude Model.C01.
 
@@ -170,3 +170,172 @@ Lemma init_order_refuted :
   run 10 init_order_witness = (Normal, [VInt 100; VInt 200; VInt 2]) /\
   run 10 (emit_order init_order_witness) = (Normal, [VInt 200; VInt 100; VInt 2]).
 Proof. repeat split; vm_compute; reflexivity. Qed.
+
+(* ---------- emission in load order never loses or duplicates a declaration ---------- *)
+
+Lemma mem_var_true_iff x l : mem_var x l = true <-> In x l.
+Proof.
+  unfold mem_var. rewrite existsb_exists. split.
+  - intros (y & Hy & E). apply N.eqb_eq in E. subst. exact Hy.
+  - intros H. exists x. split; auto. apply N.eqb_refl.
+Qed.
+Lemma mem_var_false_iff x l : mem_var x l = false <-> ~ In x l.
+Proof. rewrite <- mem_var_true_iff. destruct (mem_var x l); split; intros; congruence. Qed.
+
+Lemma in_var_names x e pre p : In (DVar x e pre) p -> In x (var_names p).
+Proof.
+  unfold var_names. intros H. apply in_flat_map. exists (DVar x e pre). split; auto. left. reflexivity.
+Qed.
+
+Lemma find_var_in p x d : find_var p x = Some d -> In d p /\ exists e pre, d = DVar x e pre.
+Proof.
+  induction p as [|a p IH]; cbn [find_var]; [discriminate|].
+  destruct a; try (intros H; destruct (IH H) as [Hin Hex]; split; [right; exact Hin|exact Hex]).
+  destruct (N.eqb x x0) eqn:E.
+  - intros H. injection H as <-. apply N.eqb_eq in E. subst. split; [left; reflexivity|eauto].
+  - intros H. destruct (IH H) as [Hin Hex]. split; [right; exact Hin|exact Hex].
+Qed.
+
+Lemma find_var_unique p x e pre :
+  NoDup (var_names p) -> In (DVar x e pre) p -> find_var p x = Some (DVar x e pre).
+Proof.
+  induction p as [|a p IH]; intros Hnd Hin; [destruct Hin|].
+  destruct Hin as [->|Hin].
+  - cbn [find_var]. rewrite N.eqb_refl. reflexivity.
+  - destruct a; cbn [find_var]; cbn [var_names flat_map app] in Hnd; try (apply IH; assumption).
+    inversion Hnd as [|? ? Hni Hnd']; subst.
+    destruct (N.eqb x x0) eqn:E.
+    + apply N.eqb_eq in E. subst. exfalso. apply Hni. eapply in_var_names; eauto.
+    + apply IH; assumption.
+Qed.
+
+Definition is_pending (loaded : list var) (d : decl) : bool :=
+  match d with DVar x _ _ => negb (mem_var x loaded) | _ => true end.
+Definition pending (ds : list decl) (loaded : list var) : list decl := filter (is_pending loaded) ds.
+
+Lemma mem_var_cons x y l : mem_var x (y :: l) = N.eqb x y || mem_var x l.
+Proof. reflexivity. Qed.
+
+Lemma pending_notin ds y loaded : ~ In y (var_names ds) -> pending ds (y :: loaded) = pending ds loaded.
+Proof.
+  induction ds as [|a ds IH]; intros Hn; [reflexivity|].
+  unfold pending in *. cbn [filter].
+  assert (Hn' : ~ In y (var_names ds)).
+  { intros H. apply Hn. unfold var_names in *. cbn [flat_map]. apply in_or_app. right. exact H. }
+  rewrite (IH Hn').
+  destruct a; cbn [is_pending]; auto.
+  rewrite mem_var_cons. destruct (N.eqb x y) eqn:E; auto.
+  apply N.eqb_eq in E. subst. exfalso. apply Hn. unfold var_names. cbn [flat_map]. left. reflexivity.
+Qed.
+
+Lemma pending_remove ds y e pre loaded :
+  NoDup (var_names ds) -> In (DVar y e pre) ds -> mem_var y loaded = false ->
+  Permutation (pending ds loaded) (DVar y e pre :: pending ds (y :: loaded)).
+Proof.
+  induction ds as [|a ds IH]; intros Hnd Hin Hl; [destruct Hin|].
+  destruct Hin as [->|Hin].
+  - cbn [var_names flat_map app] in Hnd. inversion Hnd as [|? ? Hni Hnd']; subst.
+    unfold pending. cbn [filter is_pending]. rewrite Hl, mem_var_cons, N.eqb_refl. cbn [negb orb].
+    fold (pending ds loaded). fold (pending ds (y :: loaded)). rewrite (pending_notin ds y loaded Hni). reflexivity.
+  - destruct a.
+    + unfold pending. cbn [filter is_pending]. fold (pending ds loaded). fold (pending ds (y :: loaded)).
+      eapply perm_trans; [apply perm_skip; apply IH; auto|apply perm_swap].
+    + unfold pending. cbn [filter is_pending]. fold (pending ds loaded). fold (pending ds (y :: loaded)).
+      eapply perm_trans; [apply perm_skip; apply IH; auto|apply perm_swap].
+    + cbn [var_names flat_map app] in Hnd. inversion Hnd as [|? ? Hni Hnd']; subst.
+      assert (Hxy : N.eqb x y = false).
+      { apply N.eqb_neq. intros ->. apply Hni. eapply in_var_names; eauto. }
+      unfold pending. cbn [filter is_pending]. rewrite mem_var_cons, Hxy. cbn [orb].
+      fold (pending ds loaded). fold (pending ds (y :: loaded)).
+      destruct (negb (mem_var x loaded)).
+      * eapply perm_trans; [apply perm_skip; apply IH; auto|apply perm_swap].
+      * apply IH; auto.
+    + unfold pending. cbn [filter is_pending]. fold (pending ds loaded). fold (pending ds (y :: loaded)).
+      eapply perm_trans; [apply perm_skip; apply IH; auto|apply perm_swap].
+Qed.
+
+Lemma load_var_step p em loaded y :
+  load_var p (em, loaded) y =
+  if mem_var y loaded then (em, loaded)
+  else match find_var p y with Some d => (d :: em, y :: loaded) | None => (em, loaded) end.
+Proof. reflexivity. Qed.
+
+Section EmitPerm.
+  Variable p : prog.
+  Hypothesis p_nodup : NoDup (var_names p).
+
+  (* every not yet loaded package-level variable of p is still ahead in ds *)
+  Definition ahead (loaded : list var) (ds : list decl) : Prop :=
+    forall x e pre, In (DVar x e pre) p -> mem_var x loaded = false -> In (DVar x e pre) ds.
+
+  Lemma load_vars_perm ds : NoDup (var_names ds) -> forall ys em loaded,
+    ahead loaded ds ->
+    Permutation (fst (fold_left (load_var p) ys (em, loaded)) ++ pending ds (snd (fold_left (load_var p) ys (em, loaded))))
+                (em ++ pending ds loaded)
+    /\ ahead (snd (fold_left (load_var p) ys (em, loaded))) ds.
+  Proof.
+    intros Hnd. induction ys as [|y ys IH]; intros em loaded Ha; cbn [fold_left]; [split; auto|].
+    rewrite load_var_step.
+    destruct (mem_var y loaded) eqn:El; [apply IH; exact Ha|].
+    destruct (find_var p y) as [d|] eqn:Ef; [|apply IH; exact Ha].
+    destruct (find_var_in _ _ _ Ef) as [Hin (e & pre & ->)].
+    assert (Hds : In (DVar y e pre) ds) by (apply Ha; auto).
+    assert (Ha' : ahead (y :: loaded) ds).
+    { intros x e' pre' Hx Hm. rewrite mem_var_cons in Hm. apply orb_false_elim in Hm as [_ Hm]. apply Ha; auto. }
+    destruct (IH (DVar y e pre :: em) (y :: loaded) Ha') as [Hp Hah]. split; [|exact Hah].
+    eapply perm_trans; [exact Hp|].
+    cbn [app]. eapply perm_trans; [apply Permutation_middle|].
+    apply Permutation_app_head. apply Permutation_sym. apply pending_remove; auto.
+  Qed.
+
+  Lemma emit_fold_perm : forall ds em loaded,
+    NoDup (var_names ds) -> (forall d, In d ds -> In d p) -> ahead loaded ds ->
+    Permutation (fst (fold_left (load_decl p) ds (em, loaded))) (em ++ pending ds loaded).
+  Proof.
+    induction ds as [|a ds IH]; intros em loaded Hnd Hsub Ha; cbn [fold_left].
+    - unfold pending. cbn [filter]. rewrite app_nil_r. reflexivity.
+    - assert (Hsub' : forall d, In d ds -> In d p) by (intros d Hd; apply Hsub; right; exact Hd).
+      destruct a.
+      + (* DMarker *)
+        cbn [load_decl fst snd]. unfold pending. cbn [filter is_pending]. fold (pending ds loaded).
+        eapply perm_trans; [apply IH; auto|].
+        * intros x e pre Hx Hm. destruct (Ha x e pre Hx Hm) as [H|H]; [discriminate|exact H].
+        * cbn [app]. apply Permutation_middle.
+      + cbn [load_decl fst snd]. unfold pending. cbn [filter is_pending]. fold (pending ds loaded).
+        eapply perm_trans; [apply IH; auto|].
+        * intros x e pre Hx Hm. destruct (Ha x e pre Hx Hm) as [H|H]; [discriminate|exact H].
+        * cbn [app]. apply Permutation_middle.
+      + (* DVar *)
+        cbn [var_names flat_map app] in Hnd. inversion Hnd as [|? ? Hni Hnd']; subst.
+        cbn [load_decl]. rewrite load_var_step. unfold pending. cbn [filter is_pending]. fold (pending ds loaded).
+        destruct (mem_var x loaded) eqn:El; cbn [negb].
+        * apply IH; auto.
+          intros x' e' pre' Hx Hm. destruct (Ha x' e' pre' Hx Hm) as [H|H]; [|exact H].
+          injection H as -> _ _. congruence.
+        * rewrite (find_var_unique p x e pre p_nodup (Hsub _ (or_introl eq_refl))).
+          eapply perm_trans; [apply IH; auto|].
+          -- intros x' e' pre' Hx Hm. rewrite mem_var_cons in Hm. apply orb_false_elim in Hm as [Hne Hm].
+             destruct (Ha x' e' pre' Hx Hm) as [H|H]; [|exact H].
+             injection H as -> _ _. rewrite N.eqb_refl in Hne. discriminate.
+          -- rewrite (pending_notin ds x loaded Hni). cbn [app]. apply Permutation_middle.
+      + (* DFunc *)
+        cbn [load_decl]. unfold pending. cbn [filter is_pending]. fold (pending ds loaded).
+        assert (Ha0 : ahead loaded ds).
+        { intros x e pre Hx Hm. destruct (Ha x e pre Hx Hm) as [H|H]; [discriminate|exact H]. }
+        assert (Hnd0 : NoDup (var_names ds)) by exact Hnd.
+        destruct (load_vars_perm ds Hnd0 (stmt_vars body) em loaded Ha0) as [Hp Hah].
+        destruct (fold_left (load_var p) (stmt_vars body) (em, loaded)) as [em1 loaded1] eqn:Ef. cbn [fst snd] in *.
+        eapply perm_trans; [apply IH; auto|].
+        cbn [app]. eapply perm_trans; [apply perm_skip; exact Hp|]. apply Permutation_middle.
+  Qed.
+
+  Lemma emit_order_perm : Permutation (emit_order p) p.
+  Proof.
+    unfold emit_order. eapply perm_trans; [apply Permutation_sym, Permutation_rev|].
+    eapply perm_trans; [apply emit_fold_perm; auto|].
+    - intros x e pre Hx _. exact Hx.
+    - cbn [app]. unfold pending. clear p_nodup.
+      induction p as [|a q IH]; cbn [filter]; auto.
+      destruct a; cbn [is_pending mem_var existsb negb]; apply perm_skip; exact IH.
+  Qed.
+End EmitPerm.
